@@ -46,14 +46,17 @@ def gen_calibration(rng, tier: str, *, islands=(1, 1, 2, 3), fit_ranges: str = "
     pipeline = {"photon_collection": [{"name": "oth", "func": world.PROBE, "enabled": True, "arguments": other_args}], "charge_collection": [{"name": "cal", "func": world.PROBE, "enabled": True, "arguments": cal_args}]}
     # parameters: disjoint boxes per component so that a value applied to the wrong slot is out of its box
     params, truth, k = [], [], 0
-    order = ["level"] + (["vec"] if vec_len else [])
+    scalars = ["level"] + [a for a in ("aux", "aux2") if rng.random() < 0.4]
+    for a in scalars[1:]:
+        cal_args[a] = 1.0
+    order = scalars + (["vec"] if vec_len else [])
     rng.shuffle(order)
     for name in order:
         log = rng.random() < 0.4
-        if name == "level":
+        if name != "vec":
             lo, hi = (10.0 ** k * 1.5, 10.0 ** k * 6.0)
             k += 1
-            params.append({"key": "pipeline.charge_collection.cal.arguments.level", "values": "_", "logarithmic": log, "boundaries": [lo, hi]})
+            params.append({"key": f"pipeline.charge_collection.cal.arguments.{name}", "values": "_", "logarithmic": log, "boundaries": [lo, hi]})
             truth.append(round(rng.uniform(lo, hi), 3))
         else:
             shared = rng.random() < 0.4
@@ -100,7 +103,7 @@ def gen_calibration(rng, tier: str, *, islands=(1, 1, 2, 3), fit_ranges: str = "
             weights_file = True
     fit_name = rng.choice(["sum_of_abs_residuals", "sum_of_squared_residuals", "reduced_chi_squared"])
     region = (rr[-3] - rr[-4]) * (rr[-1] - rr[-2]) * ((rr[1] - rr[0]) if multi else 1)
-    if fit_name == "reduced_chi_squared" and region < vec_len + 3:
+    if fit_name == "reduced_chi_squared" and region < vec_len + 5:
         fit_name = "sum_of_squared_residuals"
     algo_type = rng.choice(["sade", "sade", "sga"])
     scn = {
@@ -119,7 +122,7 @@ def gen_calibration(rng, tier: str, *, islands=(1, 1, 2, 3), fit_ranges: str = "
             "weights": weights,
             "weights_file": weights_file,
             "fitness": fit_name,
-            "fitness_arguments": {"free_parameters": 1 + vec_len} if fit_name == "reduced_chi_squared" else None,
+            "fitness_arguments": {"free_parameters": len(scalars) + vec_len} if fit_name == "reduced_chi_squared" else None,
             "algorithm": {"type": algo_type, "generations": rng.randint(1, 2), "population_size": rng.choice([7, 8]) if algo_type == "sade" else rng.choice([6, 8])},
             "num_islands": rng.choice(list(islands)),
             "num_evolutions": rng.randint(1, 3),
@@ -430,6 +433,8 @@ def evaluations(scn: dict, hist: list[dict]) -> list[dict]:
         r = runs.setdefault(ev["run"], {"run": ev["run"], "thread": ev["thread"]})
         if ev["name"] == "cal":
             r["level"] = ev["kwargs"].get("level")
+            r["aux"] = ev["kwargs"].get("aux")
+            r["aux2"] = ev["kwargs"].get("aux2")
             r["vec"] = ev["kwargs"].get("vec")
             r["qe"] = ev["fields"].get("qe")
         elif ev["name"] == "oth":
@@ -440,10 +445,11 @@ def evaluations(scn: dict, hist: list[dict]) -> list[dict]:
 def applied_vector(scn: dict, ev: dict) -> list[float]:
     out = []
     for p in scn["mode"]["parameters"]:
-        if p["key"].endswith(".level"):
-            out.append(float(ev["level"]))
-        else:
+        name = p["key"].split(".")[-1]
+        if name == "vec":
             out.extend(float(v) for v in np.asarray(ev["vec"], dtype=float).ravel())
+        else:
+            out.append(float(ev[name]))
     return out
 
 
